@@ -644,7 +644,7 @@ Qed.
 
 Lemma override_ok s seg p r s' d : Inv s -> override_reassign nw s seg p r = Ok (s', d) -> Inv s'.
 Proof.
-  intros I H. unfold override_reassign in H.
+  intros I H. unfold override_reassign in H. destruct (vid_eqb p r) in H; [discriminate|].
   mon H. destruct (negb _) in H; [discriminate|].
   mon H. mon H. monp H. monp H. monp H.
   eapply update_tours_ok in E4; eauto. destruct E4 as (T1 & KL1 & RK1 & DK1 & IO1).
